@@ -1,4 +1,5 @@
 import GateryModel.C18.Literal
+import GateryModel.C18.SigImport
 /-!
 Driver for C18: reads the harness protocol on stdin, replays every operation on
 (a) the word-level model and (b) the bit-array specification, and compares both with what the
@@ -192,6 +193,53 @@ partial def loop (h : IO.FS.Stream) (d : D) (lineNo : Nat) (pending : Option Out
     loop h { d with ext := ext, caseId := k, cases := d.cases + 1, caseKind := cfg, litRes := none,
                     model := Array.replicate 4 (BVS.empty npl), spec := Array.replicate 4 ⟨0, List.replicate npl []⟩ } (lineNo+1) none
   | ["end"] => loop h d (lineNo+1) none
+  | "sgerr" :: rest =>
+    IO.println s!"DIFF case={d.caseId} line={lineNo} op=[sighandle] exception {" ".intercalate rest}"
+    loop h { d with diffs := d.diffs + 1 } (lineNo+1) none
+  | "sg" :: kind :: w :: v :: "->" :: bitsS :: rest =>
+    -- integers through the simulation signal handles: import (uint64_t / int64_t / BigInt) and the conversions back
+    let w := w.toNat!
+    let vi : Int := v.toInt!
+    let chars := if bitsS == "-" then [] else bitsS.toList.reverse   -- LSB first
+    let implBit := fun (i : Nat) => chars.getD i '0' == '1'
+    let allDefined := chars.all (· != 'x')
+    let kvs := rest.map fun t => match t.splitOn "=" with | [a, b] => (a, b) | _ => ("", "")
+    let opTxt := s!"sighandle {kind} w={w} v={v}"
+    let mut d := { d with ops := d.ops + 1, hist := bump d.hist s!"sig:{kind}:{if w ≤ 64 then "≤64" else ">64"}:{if vi < 0 then "neg" else "nonneg"}" }
+    -- import
+    let specOk := chars.length == w && allDefined && (List.range w).all fun i => implBit i == Sig.specImport w vi i
+    let modelBits : Option (Nat → Bool) := if kind == "u" then some (Sig.importU64 w vi.toNat) else if kind == "i" then some (Sig.importI64 w vi) else none
+    match modelBits with
+    | some mb =>
+      if !(chars.length == w && allDefined && (List.range w).all fun i => implBit i == mb i) then
+        IO.println s!"DIFF case={d.caseId} line={lineNo} op=[{opTxt}] model={String.ofList ((List.range w).reverse.map fun i => if mb i then '1' else '0')} impl={bitsS}"
+        d := { d with diffs := d.diffs + 1 }
+    | none => pure ()
+    if !specOk then
+      IO.println s!"PROPFAIL case={d.caseId} line={lineNo} op=[{opTxt}] spec={String.ofList ((List.range w).reverse.map fun i => if Sig.specImport w vi i then '1' else '0')} impl={bitsS}"
+      d := { d with propfails := d.propfails + 1 }
+    -- export
+    let u := Sig.toNat w implBit
+    match kvs.lookup "u" with
+    | some x => if x.toNat! != u then
+        IO.println s!"PROPFAIL case={d.caseId} line={lineNo} op=[sighandle value() w={w}] spec={u} impl={x} bits={bitsS}"
+        d := { d with propfails := d.propfails + 1 }
+    | none => pure ()
+    match kvs.lookup "i" with
+    | some x =>
+      if x.toInt! != Sig.exportI64 w implBit then
+        IO.println s!"DIFF case={d.caseId} line={lineNo} op=[sighandle int64 w={w}] model={Sig.exportI64 w implBit} impl={x} bits={bitsS}"
+        d := { d with diffs := d.diffs + 1 }
+      if x.toInt! != Sig.specSigned w implBit then
+        IO.println s!"PROPFAIL case={d.caseId} line={lineNo} op=[sighandle int64 w={w}] spec={Sig.specSigned w implBit} impl={x} bits={bitsS}"
+        d := { d with propfails := d.propfails + 1 }
+    | none => pure ()
+    match kvs.lookup "b" with
+    | some x => if x.toInt! != (u : Int) then
+        IO.println s!"PROPFAIL case={d.caseId} line={lineNo} op=[sighandle BigInt w={w}] spec={u} impl={x} bits={bitsS}"
+        d := { d with propfails := d.propfails + 1 }
+    | none => pure ()
+    loop h d (lineNo+1) none
   | "lit" :: rest =>
     let s := " ".intercalate rest
     loop h { d with ops := d.ops + 1, hist := bump d.hist "parse", lastOp := s!"lit {s}", litRes := some (parseBitVector s), litStr := s } (lineNo+1) none
